@@ -408,14 +408,17 @@ def query_nickname (w : World) : Except Exc (Val × World) :=
       else .ok (.none, w1)
     | none => .ok (.none, w1)
 
-/-- `write_nickname(nickname)` for a `str` argument (`None` returns False before anything else).
-The `try/except` around `command` never fires (`command` catches the I/O exceptions itself); the
-method returns True and updates `self.name` whatever `command` returned. -/
+/-- `write_nickname(nickname)` for a `str` argument (`None` returns False before anything else):
+`nickname = nickname.strip()`; `if not self.command('ST,' + nickname): return False`; `self.name = nickname`;
+`return True`. The raw argument is only trimmed — never cut — so its length is irrelevant; the board's 16-character
+limit applies to the trimmed name. The `try/except` around `command` never fires (`command` catches the I/O
+exceptions itself). -/
 def write_nickname (w : World) (nickname : Str) : Except Exc (Val × World) :=
   if !w.py.connected || w.py.err then .ok (.bool false, w) else do
     let nickname := strip nickname
-    let (_, w1) ← command w (cST ++ [','] ++ nickname)
-    .ok (.bool true, { w1 with py := { w1.py with name := some nickname } })
+    let (ok, w1) ← command w (cST ++ [','] ++ nickname)
+    if !ok then .ok (.bool false, w1)
+    else .ok (.bool true, { w1 with py := { w1.py with name := some nickname } })
 
 /-- `res_map = {16: 1, 8: 2, 4: 3, 2: 4, 1: 5, 0: 0}`; a missing key raises KeyError -/
 def resMap (z : Int) : Except Exc Int :=
@@ -568,7 +571,8 @@ def Ready (w : World) : Prop := w.py.connected = true ∧ w.py.err = false
 /-- a signed 32-bit value -/
 def IsInt32 (v : Int) : Prop := -2147483648 ≤ v ∧ v < 2147483648
 
-/-- nicknames inside the property: after trimming at most 16 characters (the documented `ST` limit — the code
+/-- nicknames inside the property. Every clause is about the TRIMMED name `strip s`; the raw argument may carry any
+amount of leading/trailing whitespace (raw length is unconstrained). After trimming at most 16 characters (the documented `ST` limit — the code
 has no guard of its own, a longer name is rejected by the board and recorded as an error), printable ASCII
 (an interior control character would split the request line), and not containing the protocol's error marker
 `Err:` (`query` treats any reply containing it as an error report). -/
